@@ -39,6 +39,7 @@ from vlib.core import CASES, qz, qb, qstr, qlist  # noqa: E402
 from vlib.flow import load_corpus  # noqa: E402
 from props import c19_gen  # noqa: E402
 
+from commonroad.common.util import Interval  # noqa: E402
 from commonroad.geometry.shape import Circle, Polygon, Rectangle, ShapeGroup  # noqa: E402
 from commonroad.prediction.prediction import SetBasedPrediction, TrajectoryPrediction  # noqa: E402
 from commonroad.scenario.obstacle import (DynamicObstacle, EnvironmentObstacle, PhantomObstacle,  # noqa: E402
@@ -340,7 +341,7 @@ def build_world(case):
     for i, role in enumerate(w["roles"]):
         unc = w["unc"] and rng.random() < 0.6
         sc.add_objects(scen.rand_obstacle(rng, 500 + i, role=role, shape_kinds=kinds, uncertain=unc,
-                                          t0=rng.choice([0, 0, 1, 2, 4, 6])))
+                                          t0=rng.choice([0, 0, 1, 2, 4, 6]), interval_occ=bool(w.get("itv"))))
     lids = [la.lanelet_id for la in sc.lanelet_network.lanelets]
     pps = scen.rand_planning_problem_set(rng, n=w["npp"], lanelet_ids=lids or None)
     return sc, pps
@@ -351,7 +352,14 @@ def rand_world(rng):
     return {"net": rng.choice(["full", "full", "full", "plain", "empty"]),
             "roles": [rng.choice(["static", "dynamic", "dynamic", "dynamic_set", "dynamic_set", "dynamic_none", "env",
                                   "phantom"]) for _ in range(n)],
-            "unc": rng.random() < 0.3, "groups": rng.random() < 0.3, "npp": rng.randint(1, 3)}
+            "unc": rng.random() < 0.3, "groups": rng.random() < 0.3, "npp": rng.randint(1, 3),
+            "itv": rng.random() < 0.35}
+
+
+def last_step(pred):
+    """final_time_step as the integer the renderer's guards compare (an Interval compares by its end)"""
+    f = pred.final_time_step
+    return int(f.end) if isinstance(f, Interval) else int(f)
 
 
 def horizon_times(sc):
@@ -361,10 +369,10 @@ def horizon_times(sc):
             t0 = o.initial_state.time_step
             ts |= {t0 - 1, t0, t0 + 1}
             if o.prediction is not None:
-                f = o.prediction.final_time_step
+                f = last_step(o.prediction)
                 ts |= {f - 1, f, f + 1, f + 3}
         elif isinstance(o, PhantomObstacle) and o.prediction is not None:
-            f = o.prediction.final_time_step
+            f = last_step(o.prediction)
             ts |= {o.prediction.initial_time_step - 1, o.prediction.initial_time_step, f, f + 1}
     return sorted(ts)
 
@@ -389,7 +397,15 @@ def gen_render_case(rng, exact=None):
     te = tb + rng.choice([0, 1, 2, 5, 200]) if r < 0.9 else tb - rng.choice([1, 2, 6])
     kw, ops = {}, []
     how = rng.random()
-    if how < 0.25:
+    if how < 0.12 and 0 in horizon_times(sc):
+        # one kind of obstacle first gets its own window, then the window is reset at the top level to the values the
+        # top level holds anyway (the defaults 0 / 200): the reset applies to every drawn object
+        tb, te = 0, 200
+        g = rng.choice(["dynamic_obstacle", "dynamic_obstacle", "static_obstacle", "phantom_obstacle"])
+        ops += [[[g], "time_begin", {"t": "int", "v": rng.choice([1, 2, 3, 5])}],
+                [[g], "time_end", {"t": "int", "v": rng.choice([4, 6, 50])}],
+                [[], "time_begin", {"t": "int", "v": 0}], [[], "time_end", {"t": "int", "v": 200}]]
+    elif how < 0.25:
         kw = {"time_begin": {"t": "int", "v": tb}, "time_end": {"t": "int", "v": te}}
     else:
         ops += [[[], "time_begin", {"t": "int", "v": tb}], [[], "time_end", {"t": "int", "v": te}]]
@@ -588,7 +604,7 @@ def coq_obst(o, ids):
     if isinstance(o, PhantomObstacle):
         role = "RPhantom"
         if o.prediction is not None:
-            pk, final = "PSet", o.prediction.final_time_step
+            pk, final = "PSet", last_step(o.prediction)
             pred = table(lambda t: getattr(o.prediction.occupancy_at_time_step(t), "shape", None))
     elif isinstance(o, EnvironmentObstacle):
         role, shape = "REnv", sh(o.occupancy_at_time(0).shape)
@@ -604,7 +620,7 @@ def coq_obst(o, ids):
             pr = o.prediction
             if pr is not None:
                 pk = "PTraj" if isinstance(pr, TrajectoryPrediction) else "PSet"
-                final = pr.final_time_step
+                final = last_step(pr)
                 pred = table(lambda t: getattr(pr.occupancy_at_time_step(t), "shape", None))
                 if isinstance(pr, TrajectoryPrediction):
                     def pu(t):
@@ -699,8 +715,54 @@ def gen_param_case(rng):
     if rng.random() < 0.35:
         o = rand_op(rng, table, False, True)
         ops.append(o)
+    if rng.random() < 0.45:
+        ops += reassign_ops(rng, table, kw, ops)
     ops = [o + ["item"] if rng.random() < 0.25 else o for o in ops]
     return {"k": "param", "kw": kw, "ops": ops}
+
+
+def scalar_spec(v):
+    if isinstance(v, bool):
+        return {"t": "bool", "v": v}
+    if isinstance(v, int):
+        return {"t": "int", "v": v}
+    return None
+
+
+def reassign_ops(rng, table, kw, ops):
+    """a nested group is given its own value of a parameter, then a group above it is assigned the value that group
+    ALREADY holds (e.g. the window is reset to the default at the top level): the assignment must still reach the
+    nested group.  Values are read off the parameters built so far."""
+    try:
+        p = build_params({"kw": kw, "ops": ops})
+    except Exception:  # noqa - judged when the case itself runs
+        return []
+    cand = []
+    for q, cls in table.items():
+        if not q:
+            continue
+        for k, tag in decl()[cls]:
+            if tag not in ("int", "bool"):
+                continue
+            for cut in range(len(q)):
+                a = q[:cut]
+                if a in table and any(k == k2 for k2, _ in decl()[table[a]]):
+                    cand.append((q, a, k, tag))
+    if not cand:
+        return []
+    base = [c for c in cand if c[2] in ("time_begin", "time_end")]
+    q, a, k, tag = rng.choice(base if base and rng.random() < 0.6 else cand)
+    g = p
+    for c in a:
+        g = getattr(g, c)
+    cur = scalar_spec(getattr(g, k))
+    if cur is None:
+        return []
+    other = {"t": "bool", "v": not cur["v"]} if tag == "bool" else {"t": "int", "v": cur["v"] + rng.choice([1, 3, 10, -2])}
+    out = [[list(q), k, other], [list(a), k, cur]]
+    if rng.random() < 0.3:
+        out.append([list(q), k, other])
+    return out
 
 
 def oracle(case):
